@@ -1038,6 +1038,7 @@ func (c07) Batch(seed uint64, wid, batch, count int, deadline time.Time, emit fu
 		h := genHist7(r)
 		res := runHist7(h, x)
 		tick()
+		traceRun(i, res.Sim.Hash, res.Sim.Steps, fmt.Sprint(res.Viol != nil, res.Accepts, res.Rejects, res.Shape))
 		if i%16 == 15 {
 			runtime.GC()
 		}
